@@ -1692,7 +1692,17 @@ class Message_Router( Object ):
                 for r in data.multiple.request:
                     if log.isEnabledFor( logging.DETAIL ):
                         log.detail( "%s Process on %s: %s", self, target, enip_format( r ))
-                    target.request( r, addr=addr )
+                    try:
+                        target.request( r, addr=addr )
+                    except Exception as exc:
+                        # This sub-request could not even be turned into a reply (eg. unrecognized
+                        # service).  Don't fail the whole packet, leaving the sub-requests already
+                        # processed (eg. writes) unacknowledged; embed a "Service not supported" reply.
+                        log.normal( "%s Multiple Service Packet sub-request failed: %s", self, exc )
+                        r.service	= r.get( 'service', 0 ) | 0x80
+                        r.status	= 0x08
+                        r.pop( 'status_ext', None )
+                        r.input		= bytearray( USINT.produce( r.service ) + b'\x00' + status.produce( r ))
                 data.status	= 0x00
             else:
                 raise AssertionError( "Unknown service code %s" % data.service )
